@@ -51,6 +51,9 @@ def landing_scenarios(quick):
     for kind in ('T', 'P', 'R'):
         for tgt in ('t_loop', 't_raise'):
             out.append({'kind': kind, 'target': tgt, 'ending': 'landing'})
+    # a result much bigger than one buffer: the framing code of the remote kind sends and receives it in pieces
+    out.append({'kind': 'R', 'target': 't_big', 'ending': 'landing'})
+    out.append({'kind': 'PR', 'target': 'p_big', 'inputs': [1], 'close': True, 'ending': 'landing'})
     for kind in ('PT', 'PP', 'PR'):
         out.append({'kind': kind, 'target': 'p_echo', 'inputs': [1, 2], 'close': True, 'ending': 'landing'})
         out.append({'kind': kind, 'target': 'p_poison', 'inputs': [1, 99], 'close': True, 'ending': 'landing'})
@@ -73,7 +76,7 @@ def expected(case):
     ev = (case.get('events') or [None])[0]
     kind = case['kind']
     acc = []
-    if t == 'p_echo':
+    if t in ('p_echo', 'p_big'):
         own = [(False, n, None) for n in range(len(case.get('inputs', [])) + 1)]
     elif t == 'p_poison':
         own = [(True, None, {'exc': 'ValueError', 'args': ['poison', 99]})]
@@ -99,7 +102,7 @@ def expected(case):
         # killed while sending: nothing reportable (or, if the message got through before the signal, the value itself)
         return [(True, None, None), (False, 'bytes[%d]' % case['targs']['size'], None)]
     if ev is None:
-        if t == 'p_echo':
+        if t in ('p_echo', 'p_big'):
             own = [(False, len(case.get('inputs', [])), None)]
         if case.get('observe') == 'terminate':
             # death is observed through terminate(), which may itself be what ends a worker that is still busy
